@@ -192,6 +192,85 @@ Qed.
 Lemma gstep_resend_closed g : g_closed g = true -> gstep g GResend = (g, [Refused]).
 Proof. intros Hc. cbn. rewrite Hc. reflexivity. Qed.
 
+(* ---------- writers in flight ---------- *)
+(* an open gate on an existing connection means TLS; a writer is in flight only while the gate is open *)
+Definition gate2_inv (s : gate2) : Prop :=
+  gate_inv (h_gate s) /\ (h_inflight s <> 0%nat -> g_closed (h_gate s) = false).
+
+Lemma gate2_0_inv : gate2_inv gate2_0.
+Proof. split; [apply gate0_inv|intros H; contradiction H; reflexivity]. Qed.
+
+Lemma gstep2_safe s e s' rs :
+  gate2_inv s -> gstep2 false true s e = Some (s', rs) -> gate2_inv s' /\ no_clear rs.
+Proof.
+  intros [Hg Hf] E. destruct s as [g n]. cbn [h_gate h_inflight] in *. unfold gstep2 in E. cbn [h_gate h_inflight] in E.
+  destruct e as [e| |].
+  - destruct e as [d|x|r| |].
+    + (* GBegin: only with no writer in flight *)
+      destruct (negb (Nat.eqb n 0)) eqn:En; cbn [andb] in E; [discriminate|].
+      apply negb_false_iff, Nat.eqb_eq in En. subst n.
+      cbn in E. injection E as <- <-. split; [|constructor].
+      split; [intros H; discriminate|intros H; contradiction H; reflexivity].
+    + destruct (g_closed g) eqn:Ec; [|discriminate]. cbn in E. injection E as <- <-. split; [|constructor].
+      split; cbn; [intros H; rewrite Ec in H; discriminate|].
+      intros Hn. specialize (Hf Hn). congruence.
+    + destruct r as [|ce pm].
+      * destruct (g_closed g) eqn:Ec; [|discriminate]. cbn [andb orb] in E.
+        destruct (g_tls g) eqn:Et; [|discriminate]. cbn in E. injection E as <- <-. split; [|constructor].
+        split; cbn; [intros _ _; exact Et|]. intros Hn. specialize (Hf Hn). congruence.
+      * destruct (g_closed g) eqn:Ec; [|discriminate]. cbn in E. rewrite Ec in E. injection E as <- <-.
+        split; [|constructor]. split; cbn; [intros H; discriminate|]. intros Hn. specialize (Hf Hn). congruence.
+    + cbn in E. injection E as <- <-. split; [split; assumption|].
+      constructor; [|constructor].
+      destruct (g_closed g) eqn:Ec; [discriminate|]. destruct (g_conn g) eqn:En; [|discriminate].
+      rewrite (Hg Ec En). discriminate.
+    + cbn in E. injection E as <- <-. split; [split; assumption|].
+      constructor; [|constructor].
+      destruct (g_closed g) eqn:Ec; [discriminate|]. destruct (g_conn g) eqn:En; [|discriminate].
+      rewrite (Hg Ec En). discriminate.
+  - destruct (g_closed g) eqn:Ec; injection E as <- <-.
+    + split; [split; cbn; [exact Hg|intros Hn; specialize (Hf Hn); congruence]|]. constructor; [discriminate|constructor].
+    + split; [|constructor]. split; cbn; [exact Hg|intros _; exact Ec].
+  - destruct n as [|n]; [discriminate|]. injection E as <- <-.
+    assert (Ec : g_closed g = false) by (apply Hf; discriminate).
+    split.
+    + split; cbn; [exact Hg|intros _; exact Ec].
+    + constructor; [|constructor]. destruct (g_conn g) eqn:En; [|discriminate]. rewrite (Hg Ec En). discriminate.
+Qed.
+
+(* every interleaving the lock permits: nothing is ever written outside TLS *)
+Lemma grun2_safe es : forall s s' rs,
+  gate2_inv s -> grun2 false true s es = Some (s', rs) -> gate2_inv s' /\ no_clear rs.
+Proof.
+  induction es as [|e es IH]; intros s s' rs Hs E; cbn [grun2] in E.
+  - injection E as <- <-. split; [exact Hs|constructor].
+  - destruct (gstep2 false true s e) as [[s1 r1]|] eqn:E1; [|discriminate].
+    destruct (grun2 false true s1 es) as [[s2 r2]|] eqn:E2; [|discriminate].
+    injection E as <- <-.
+    destruct (gstep2_safe _ _ _ _ Hs E1) as [H1 Hr1]. destruct (IH _ _ _ H1 E2) as [H2 Hr2].
+    split; [exact H2|apply Forall_app; split; assumption].
+Qed.
+
+(* the dial of connect() happens only after every write in flight has returned *)
+Lemma dial_after_writes insecure s d x :
+  gstep2 insecure true s (GE (GBegin d)) = Some x -> h_inflight s = 0%nat.
+Proof.
+  unfold gstep2. destruct (Nat.eqb (h_inflight s) 0) eqn:E; cbn [negb andb]; [|discriminate].
+  intros _. apply Nat.eqb_eq; exact E.
+Qed.
+
+(* with the lock released right after the check, a sender that passed the gate on an established TLS
+   session writes on the clear-text connection the reconnection has dialled meanwhile *)
+Definition overtaken_trace : list gev2 :=
+  [GE (GBegin true); GE (GOut (o true ROpen [])); GE (GEnd Ok);   (* a session over TLS *)
+   GEnter;                                                       (* a sender passes the gate *)
+   GE (GBegin true); GE (GOut (o false ROpen []));               (* reconnection: new clear connection, stream header *)
+   GLeave].                                                      (* the sender's write happens now *)
+Lemma lock_released_early_refuted :
+  option_map snd (grun2 false false gate2_0 overtaken_trace) = Some [Written false] /\
+  grun2 false true gate2_0 overtaken_trace = None.
+Proof. split; reflexivity. Qed.
+
 (* ---------- websocket opening handshake ---------- *)
 Lemma ws_dial_https_stays rs : forall n s, ws_dial Https rs n = Some s -> s = Https.
 Proof.
